@@ -406,3 +406,41 @@ impl Property for Wcq {
         crate::repeat_if_replay(ctx, || run_wcq(ctx, c))
     }
 }
+
+
+/// Shallow queues, many calls: batch limit b and exactly b + 1 callers with nothing between their
+/// calls, 60 000 calls each.  The hand-over of the head position from a served caller to the one
+/// caller behind it happens a few hundred thousand times per case; the ordinary part, with up to 200
+/// calls per thread, sees it a few hundred times.  Same oracle (run_wcq), same exact all-parked verdict.
+pub struct WcqHandoff;
+
+impl Property for WcqHandoff {
+    type Case = WcqCase;
+    fn name(&self) -> String {
+        "coalescing-queue-handoff".into()
+    }
+    fn cases(&self, tier: Tier) -> u64 {
+        tier.pick(2, 40)
+    }
+    fn strategy(&self, _: &Ctx) -> BoxedStrategy<WcqCase> {
+        (1u8..4, prop_oneof![3 => Just(Pin::Free), 1 => Just(Pin::Two)], 40_000u16..60_000)
+            .prop_map(|(b, pin, calls)| WcqCase {
+                threads: (0..b as usize + 1).map(|_| WcqThread { calls, before: vec![Delay::None] }).collect(),
+                policy: Policy::UpTo(b),
+                in_work: vec![Delay::None],
+                pin,
+            })
+            .boxed()
+    }
+    fn max_shrink_iters(&self) -> u32 {
+        6
+    }
+    fn record_current(&self) -> bool {
+        true
+    }
+    fn run(&self, ctx: &Ctx, c: &WcqCase) -> Outcome {
+        let mut o = run_wcq(ctx, c);
+        o.label("shallow-queue-many-calls");
+        o
+    }
+}
